@@ -97,6 +97,8 @@ def build(tree: dict[str, Any]) -> list[dict[str, Any]]:
                 body.append({"op": "spawn", "via": "ctx" if places[c] == "spawn" else "asyncio", "name": f"task{c}", "owner": None, "body": [{"op": "gate", "label": f"n{c}.start"}, blk]})
         body.append({"op": "gate", "label": f"{name}.out"})
         b: dict[str, Any] = {"op": "block", "kind": kinds[i], "name": name, "supply": [], "body": body, "completion": None if cbs[i] == "none" else cbs[i], "catch": True}
+        if tree.get("same_names") and i > 0:
+            b["scope_name"] = "job"  # every nested scope carries the same name (the same coroutine / traced function started several times)
         if (tree.get("traces") or [None] * n)[i]:
             b["trace_id"] = tree["traces"][i]  # an own trace id (same as or different from the parent's) must not change the nesting
         if (tree.get("fails") or [False] * n)[i] and kinds[i] == "ascope" and not kids[i]:
@@ -273,6 +275,8 @@ def all_trees(tier: str, rng: random.Random):  # noqa: ANN201
                     yield {"parents": parents, "kinds": list(kinds), "places": ["root", *places], "callbacks": cbs}
                     if n >= 2 and kinds[-1] == "ascope":
                         yield {"parents": parents, "kinds": list(kinds), "places": ["root", *places], "callbacks": cbs, "fails": [False] * (n - 1) + [True]}
+                    if n == 3:
+                        yield {"parents": parents, "kinds": list(kinds), "places": ["root", *places], "callbacks": cbs, "same_names": True}
                     if n >= 2:
                         yield {"parents": parents, "kinds": list(kinds), "places": ["root", *places], "callbacks": cbs, "traces": [None if i % 2 == 0 else f"own-{i}" for i in range(n)]}
                         yield {"parents": parents, "kinds": list(kinds), "places": ["root", *places], "callbacks": cbs, "traces": ["shared"] + [("shared", f"own-{i}", None)[i % 3] for i in range(1, n)]}
@@ -281,7 +285,7 @@ def all_trees(tier: str, rng: random.Random):  # noqa: ANN201
         parents = rng.choice(list(trees(n)))
         yield {"parents": parents, "kinds": [rng.choice(["ascope", "sscope"]) for _ in range(n)], "places": ["root"] + [rng.choice(["inline", "spawn", "plain", "plain"]) for _ in range(n - 1)],
                "callbacks": [rng.choice(["sync", "async", "sync-raise", "async-raise", "sync", "async-object", "async-partial", "async-method", "sync-falsy-object", "none", "none"]) for _ in range(n)], "gc": rng.random() < 0.06, "fails": [rng.random() < 0.25 for _ in range(n)],
-               "traces": [rng.choice([None, None, "shared", f"own-{i}"]) for i in range(n)]}
+               "traces": [rng.choice([None, None, "shared", f"own-{i}"]) for i in range(n)], "same_names": rng.random() < 0.3}
 
 
 def valid(tree: dict[str, Any]) -> bool:
